@@ -614,13 +614,12 @@ section addType
 variable {d : ClassDiagram} {t : DataType}
 
 /-- the new DT_ID is unused: no data type has it, no user type is based on it (nor the new type on
-    itself), no attribute is typed by it; and the chains of user types are short enough for the fuel -/
+    itself), no attribute is typed by it -/
 structure FreshType (d : ClassDiagram) (t : DataType) : Prop where
   noDt : ∀ x ∈ d.dts, x.id ≠ t.id
   noBase : ∀ x ∈ d.dts, x.kind ≠ .user t.id
   noSelf : t.kind ≠ .user t.id
   noAttr : ∀ k ∈ d.classes, ∀ y ∈ k.attrs, y.kind ≠ .base t.id ∧ y.kind ≠ .derived t.id
-  fuelOk : ∀ x ∈ d.dts, baseTypeFuel d.dts (d.dts.length + 2) x.id = baseTypeFuel d.dts (d.dts.length + 1) x.id
 
 theorem global_not_contained (cs : List Container) (root : Nat) (f : Nat) (p : Parent)
     (h : globalFuel cs f p = true) : containedFuel cs root f p = false := by
@@ -629,7 +628,9 @@ theorem global_not_contained (cs : List Container) (root : Nat) (f : Nat) (p : P
   | succ f ih =>
     cases p with
     | none => rfl
-    | comp c => simp [globalFuel] at h
+    | comp c =>
+      simp only [globalFuel, Option.isNone_iff_eq_none] at h
+      simp only [containedFuel, h]
     | pkg q =>
       simp only [globalFuel] at h
       simp only [containedFuel]
@@ -676,16 +677,12 @@ theorem at_baseTypeFuel (fr : FreshType d t) (f i : Nat) (h : i ≠ t.id) :
         exact ih b this
       | _ => rfl
 
-theorem at_baseTypeName (fr : FreshType d t) (i : Nat) (h : i ≠ t.id) :
+theorem at_baseTypeName (chain : DtChainOk d.dts) (fr : FreshType d t) (i : Nat) (h : i ≠ t.id) :
     baseTypeName (d.dts ++ [t]) i = baseTypeName d.dts i := by
   unfold baseTypeName
   rw [List.length_append, List.length_singleton, at_baseTypeFuel fr _ i h]
-  cases hf : findDt d.dts i with
-  | none => simp [baseTypeFuel, hf]
-  | some x =>
-    have := fr.fuelOk x (findDt_mem hf)
-    rw [findDt_id hf] at this
-    exact this
+  obtain ⟨depth, hdec, hb⟩ := chain.ex
+  exact baseTypeFuel_stable depth hdec _ _ i (by have := hb i; omega) (by have := hb i; omega)
 
 theorem attrDt_ne_fresh (fr : FreshType d t) {k : Class} (hk : k ∈ d.classes) {y : Attr} (hy : y ∈ k.attrs)
     {dt : Nat} (h : attrDt d y = some dt) : dt ≠ t.id := by
@@ -719,7 +716,7 @@ theorem attrDt_ne_fresh (fr : FreshType d t) {k : Class} (hk : k ∈ d.classes) 
           intro he; exact (fr.noAttr k' hk'm z hzm).2 (by rw [hzk, h, he])
         | ref c' b' => rw [hzk] at h; simp at h
 
-theorem at_xattr (fr : FreshType d t) {k : Class} (hk : k ∈ d.classes) {y : Attr} (hy : y ∈ k.attrs) :
+theorem at_xattr (chain : DtChainOk d.dts) (fr : FreshType d t) {k : Class} (hk : k ∈ d.classes) {y : Attr} (hy : y ∈ k.attrs) :
     xattr { d with dts := d.dts ++ [t] } y = xattr d y := by
   apply xattr_same
   have : attrDt { d with dts := d.dts ++ [t] } y = attrDt d y := rfl
@@ -729,9 +726,9 @@ theorem at_xattr (fr : FreshType d t) {k : Class} (hk : k ∈ d.classes) {y : At
   | none => rfl
   | some dt =>
     simp only [Option.bind_some]
-    exact at_baseTypeName fr dt (attrDt_ne_fresh fr hk hy h)
+    exact at_baseTypeName chain fr dt (attrDt_ne_fresh fr hk hy h)
 
-theorem xaddType_commutes (fr : FreshType d t) (comp : Nat) :
+theorem xaddType_commutes (chain : DtChainOk d.dts) (fr : FreshType d t) (comp : Nat) :
     xsdSpec (applyXEdit (.addType t) d) comp = specEdit (xresolve d comp (.addType t)) (xsdSpec d comp) := by
   have happ : applyXEdit (.addType t) d = { d with dts := d.dts ++ [t] } := rfl
   rw [happ]
@@ -747,7 +744,7 @@ theorem xaddType_commutes (fr : FreshType d t) (comp : Nat) :
     simp only [XClass.mk.injEq, true_and]
     apply filterMap_congr'
     intro y hy
-    exact at_xattr fr (List.mem_filter.mp hk).1 hy
+    exact at_xattr chain fr (List.mem_filter.mp hk).1 hy
   have htypes : (xsdSpec { d with dts := d.dts ++ [t] } comp).types =
       ((d.dts.filter (fun x => isGlobal d.containers x.parent)).filterMap (xtypeOf d.dts) ++
         (if isGlobal d.containers t.parent then (xtypeOf d.dts t).toList else [])) ++
